@@ -19,9 +19,9 @@ use std::collections::{BTreeMap, BTreeSet};
 use std::sync::Arc;
 use std::time::Duration;
 
-pub const KINDS: [&str; 22] = [
+pub const KINDS: [&str; 23] = [
     "PublishBig", "CreateTopic", "CreateSub", "CreateSubPush", "Publish1", "Publish3", "PullRI", "PullBlockEmpty", "PullBlockReady", "Ack", "Nack", "Modify30",
-    "DeleteSub", "DeleteTopic", "GetTopic", "GetSub", "ListTopics", "ListSubs", "ListTopicSubs", "StreamOpen", "StreamOpenEmpty", "Publish3WhileDeleting",
+    "DeleteSub", "DeleteTopic", "GetTopic", "GetSub", "ListTopics", "ListSubs", "ListTopicSubs", "StreamOpen", "StreamOpenEmpty", "Publish3WhileDeleting", "DeleteSubRetriedInBurst",
 ];
 const K_MAX: u64 = 14;
 const SETTINGS: [&str; 4] = ["idle", "topic-full", "sub-full", "both-full"];
@@ -36,7 +36,7 @@ pub fn plan(p: &EpParams) -> Plan {
         episodes: family() * reps,
         exhaustive: true,
         rule: format!(
-            "crash points: {} request kinds x k=1..{} polls-then-drop x {} saturation settings, enumerated completely with hook yields off (first pass) and repeated with seeded yields ({} passes in this tier). Non-trivial: the call future was dropped before it completed. Distinct: (kind, k, setting, outcome applied/not-applied, yields on/off).",
+            "crash points: {} request kinds x k=1..{} polls-then-drop x {} saturation settings, enumerated completely with hook yields off (first pass) and repeated with seeded yields ({} passes in this tier). Two kinds have company: Publish3WhileDeleting (a sibling subscription is deleted by another client at the same moment) and DeleteSubRetriedInBurst (the abandoned DeleteSubscription is sent again at once while 40 clients publish to the topic). Non-trivial: the call future was dropped before it completed. Distinct: (kind, k, setting, outcome applied/not-applied, yields on/off).",
             KINDS.len(), K_MAX, SETTINGS.len(), reps
         ),
     }
@@ -134,7 +134,7 @@ async fn episode(p: &EpParams, case: u64, pass: u64) -> EpReport {
         "PullRI" | "PullBlockReady" | "StreamOpen" => (&t1, &s2),
         "PullBlockEmpty" | "StreamOpenEmpty" => (&t2, &s4),
         "Ack" | "Nack" | "Modify30" | "GetSub" => (&t1, &s1),
-        "DeleteSub" => (&t1, &s3),
+        "DeleteSub" | "DeleteSubRetriedInBurst" => (&t1, &s3),
         _ => (&t1, &s1),
     };
 
@@ -191,7 +191,7 @@ async fn episode(p: &EpParams, case: u64, pass: u64) -> EpReport {
             "Ack" => Box::pin(async move { c1.ack(&s1, &leases).await.ok(); None }),
             "Nack" => Box::pin(async move { c1.modify(&s1, &leases, 0).await.ok(); None }),
             "Modify30" => Box::pin(async move { c1.modify(&s1, &leases, 30).await.ok(); None }),
-            "DeleteSub" => Box::pin(async move { c1.delete_sub(&s3).await.ok(); None }),
+            "DeleteSub" | "DeleteSubRetriedInBurst" => Box::pin(async move { c1.delete_sub(&s3).await.ok(); None }),
             "DeleteTopic" => Box::pin(async move { c1.delete_topic(&t1).await.ok(); None }),
             "GetTopic" => Box::pin(async move { c1.get_topic(&t1).await.ok(); None }),
             "GetSub" => Box::pin(async move { c1.get_sub(&s1).await.ok(); None }),
@@ -209,6 +209,19 @@ async fn episode(p: &EpParams, case: u64, pass: u64) -> EpReport {
     if kind == "Publish3WhileDeleting" {
         let (c2, s3b) = (Cx::new(&w, 2), s3.clone());
         other_delete = Some(tokio::spawn(async move { c2.delete_sub(&s3b).await }));
+    }
+    // DeleteSubRetriedInBurst: the client that gave up on its DeleteSubscription sends it again at once
+    // (that one is awaited), while 40 other clients publish one message each to the topic: more
+    // than a subscription mailbox holds
+    let mut retried_delete = None;
+    let mut burst = Vec::new();
+    if kind == "DeleteSubRetriedInBurst" {
+        let (c2, s3b) = (Cx::new(&w, 2), s3.clone());
+        retried_delete = Some(tokio::spawn(async move { c2.delete_sub(&s3b).await }));
+        for i in 0..40u32 {
+            let (c, t) = (Cx::new(&w, 300 + i), t1.clone());
+            burst.push(tokio::spawn(async move { c.publish(&t, &[Msg::tagged(&format!("burst{}", i))]).await.is_ok() }));
+        }
     }
     let polls_seen = Arc::new(std::sync::atomic::AtomicUsize::new(0));
     let ps = Arc::clone(&polls_seen);
@@ -279,6 +292,37 @@ async fn episode(p: &EpParams, case: u64, pass: u64) -> EpReport {
                 pre.stats.remove(&s3);
             }
             _ => rep.viol("C16", format!("C16:wedge:{}@{}", kind, setting), "the DeleteSubscription of the sibling subscription did not return OK".to_string()),
+        }
+    }
+    if let Some(h) = retried_delete {
+        match tokio::time::timeout(Duration::from_secs(3600), h).await {
+            Ok(Ok(r)) => {
+                if matches!(r.as_ref().map_err(|e| e.code() as i32), Ok(()) | Err(NOT_FOUND)) {
+                    pre.subs.remove(&s3);
+                    if let Some(x) = pre.tsubs.get_mut(&t1) {
+                        x.remove(&s3);
+                    }
+                    pre.stats.remove(&s3);
+                }
+                rep.inc("retried_deletes_answered");
+            }
+            _ => rep.viol("C16", format!("C16:wedge:{}@{}", kind, setting), format!("after {}: the DeleteSubscription sent again was never answered", label)),
+        }
+        let mut ok = 0;
+        for (i, b) in burst.into_iter().enumerate() {
+            match tokio::time::timeout(Duration::from_secs(3600), b).await {
+                Ok(Ok(true)) => ok += 1,
+                Ok(_) => {}
+                Err(_) => {
+                    rep.viol("C16", format!("C16:wedge:{}@{}", kind, setting), format!("after {}: publish {} of the burst to the topic never completed", label, i));
+                    break;
+                }
+            }
+        }
+        for s in [&s1, &s2, &s3] {
+            if let Some(e) = pre.stats.get_mut(s) {
+                e.1 += ok;
+            }
         }
     }
     // --- invariants that hold whatever R did ---------------------------------------------------
@@ -354,7 +398,7 @@ async fn episode(p: &EpParams, case: u64, pass: u64) -> EpReport {
             e.0 -= 2;
             e.1 += 2;
         }
-        "DeleteSub" => {
+        "DeleteSub" | "DeleteSubRetriedInBurst" => {
             applied.subs.remove(&s3);
             applied.tsubs.get_mut(&t1).unwrap().remove(&s3);
             applied.stats.remove(&s3);
